@@ -12,15 +12,10 @@ def claim(pid, engine, technique, text, note, ref):
     CLAIMS[pid] = dict(engine=engine, technique=technique, text=text, note=note, ref=ref)
 
 exec(open(f"{ROOT}/tools/claims.py").read())
-for _pid, _txt in globals().get("ROUND3", {}).items():
-    if _pid in CLAIMS:
-        CLAIMS[_pid]["text"] += " " + _txt
-for _pid, _txt in globals().get("ROUND5", {}).items():
-    if _pid in CLAIMS:
-        CLAIMS[_pid]["text"] += " " + _txt
-for _pid, _txt in globals().get("ROUND4", {}).items():
-    if _pid in CLAIMS:
-        CLAIMS[_pid]["text"] += " " + _txt
+for _name in ("ROUND3", "ROUND4", "ROUND5"):
+    for _pid, _txt in globals().get(_name, {}).items():
+        if _pid in CLAIMS:
+            CLAIMS[_pid]["text"] += " " + _txt
 
 hooks_commits = []
 hp = f"{ROOT}/tools/hook_commits.txt"
